@@ -107,6 +107,54 @@ pub struct Side {
     pub methods: Vec<Method>,
     /// Drain action after piece `i` is `drains[i % len]` (Nothing when empty).
     pub drains: Vec<Drain>,
+    /// Arena action before piece `i` is `nudges[i % len]` (none when empty): the
+    /// codec's arena is reachable through `consumer().arena()`, and flushing or
+    /// filling it forces chunk turnovers at chosen points.
+    #[serde(default)]
+    pub nudges: Vec<Nudge>,
+}
+
+#[derive(Clone, Copy, Debug, PartialEq, Eq, Hash, Serialize, Deserialize)]
+pub enum Nudge {
+    Nothing,
+    /// `flush_cache()`
+    Flush,
+    /// `ensure_capacity(n)`
+    Ensure(u32),
+    /// Use up the current chunk until this many bytes are left.
+    LeaveRemaining(u16),
+}
+
+/// Uses up the arena's current chunk until `leave` bytes remain.
+pub fn leave_remaining(arena: &mut owning_iovec::ByteArena, leave: usize) {
+    if arena.remaining() <= leave {
+        arena.ensure_capacity(leave + 1);
+    }
+    let take = arena.remaining().saturating_sub(leave);
+    if take > 0 {
+        let src = vec![0u8; take];
+        let mut rd = &src[..];
+        // The slice is dropped at once; the chunk stays the arena's current one.
+        let _ = arena.read_n(&mut rd, take, NonZeroUsize::new(1).unwrap());
+    }
+}
+
+pub fn apply_nudge(arena: &mut owning_iovec::ByteArena, nudge: Nudge) {
+    match nudge {
+        Nudge::Nothing => {}
+        Nudge::Flush => arena.flush_cache(),
+        Nudge::Ensure(n) => arena.ensure_capacity((n as usize).min(2 << 20)),
+        Nudge::LeaveRemaining(r) => leave_remaining(arena, r as usize),
+    }
+}
+
+pub fn nudge() -> impl Strategy<Value = Nudge> {
+    prop_oneof![
+        6 => Just(Nudge::Nothing),
+        2 => Just(Nudge::Flush),
+        1 => prop_oneof![1u32..300, 4000u32..9000, 60_000u32..70_000].prop_map(Nudge::Ensure),
+        3 => prop_oneof![0u16..4, 60u16..70, 250u16..260, 0u16..300].prop_map(Nudge::LeaveRemaining),
+    ]
 }
 
 #[derive(Clone, Debug, PartialEq, Eq, Hash, Serialize, Deserialize)]
@@ -147,8 +195,9 @@ pub fn side(max_cuts: usize) -> impl Strategy<Value = Side> {
         bytespec::cuts(max_cuts),
         proptest::collection::vec(method(), 0..5),
         proptest::collection::vec(drain(), 0..5),
+        prop_oneof![2 => Just(vec![]), 1 => proptest::collection::vec(nudge(), 1..5)],
     )
-        .prop_map(|(cuts, methods, drains)| Side { cuts, methods, drains })
+        .prop_map(|(cuts, methods, drains, nudges)| Side { cuts, methods, drains, nudges })
 }
 
 pub fn codec_case(allow_large: bool) -> impl Strategy<Value = CodecCase> {
@@ -369,6 +418,9 @@ pub fn run_encoder(plain: &[u8], pre: &[u8], side: &Side, check_stream: bool) ->
             let m = if side.methods.is_empty() { &Method::Borrow } else { &side.methods[i % side.methods.len()] };
             obs.methods_used.insert(method_name(m));
             obs.pieces += 1;
+            if !side.nudges.is_empty() {
+                apply_nudge(encoder.consumer().arena(), side.nudges[i % side.nudges.len()]);
+            }
             match m {
                 Method::Borrow => {
                     encoder.encode(chunk);
@@ -499,6 +551,9 @@ pub fn run_decoder(stream: &[u8], side: &Side, check_stream: bool) -> Result<Dec
             let m = if side.methods.is_empty() { &Method::Borrow } else { &side.methods[i % side.methods.len()] };
             obs.methods_used.insert(method_name(m));
             obs.pieces += 1;
+            if !side.nudges.is_empty() {
+                apply_nudge(decoder.consumer().arena(), side.nudges[i % side.nudges.len()]);
+            }
             let step: Result<(), String> = match m {
                 Method::Borrow => {
                     pos = piece_end;
